@@ -321,7 +321,9 @@ def handle (line : String) : String :=
         | _ => "bad-op")
      | ["ratio", a, b] =>
        (match a.toNat?, b.toNat?, parseOps body with
-        | some a, some b, some ops => let (x, y) := ratioPair ops a b; s!"ok R={x}/{y}"
+        | some a, some b, some ops =>
+          let (x, y) := ratioPair ops a b
+          s!"ok R={x}/{y} F={(ratioF (x / 2) y).toBits.toNat}"
         | _, _, _ => "bad-op")
      | _ => "bad-op")
   | _ => "bad-op"
